@@ -10,8 +10,9 @@ node times, mutation times, "mn"/"vr" metadata and the fit's posterior moments a
   (see C06). A non-power-of-two factor may round two distinct coordinates together (a site onto
   the next breakpoint): such transformed inputs are outside the domain and discarded (counted).
 
-Calibration on the unchanged tree (1500 cases, seed 2, non-power-of-two factors): worst relative
-deviation 2e-9 (variational_gamma), 1e-11 (discrete); tolerance 1e-6. Power-of-two: 0 mismatches.
+Calibration on the unchanged tree (1500 cases, seed 3; 850 non-power-of-two pairs): worst relative
+deviation 1.1e-7 (variational_gamma, Newton stop at sqrt(eps)), 4.5e-13 (inside_outside), 0
+(maximization); tolerance 1e-6. Power-of-two factors: 650 pairs, 0 mismatches of any bit.
 """
 
 import numpy as np
@@ -29,7 +30,7 @@ RULE = (
     "method x drawn configuration (as C06: EP iterations, rescaling_intervals in {0,2,5,1000}, both rescaling "
     "targets, unphased singletons; Ne float / history / prior grids, lognorm/gamma, log/linear space) x factor c "
     "(half 2^k with |k|<=40, half log-uniform in [1e-9,1e9]); non-trivial = input has >= 2 trees and >= 3 "
-    "mutations and both runs returned; distinct by SHA-1 of (tables, configuration, c)"
+    "mutations and both runs returned (or the pair is reported as a violation); distinct by SHA-1 of (tables, configuration, c)"
 )
 ASSUMPTIONS = [
     "only coordinates and the mutation rate are transformed; node times, eps, min_branch_length, population size "
@@ -38,8 +39,8 @@ ASSUMPTIONS = [
     "(the transformed input is then a different genealogy)",
     "both runs raising the same exception class counts as agreement and is discarded; which inputs may raise "
     "belongs to C35",
-    "non-power-of-two factors: tolerance 1e-6 with confirmation at c(1+j*2^-20), |j|<=3, and a tie test at "
-    "1+j*2^-20, |j|<=8; cases with a singleton phase within 1e-9 of 0.5 are discarded for such factors",
+    "non-power-of-two factors: tolerance 1e-6 with confirmation at six factors c(1+-g*2^-20) and a tie test at "
+    "sixteen generic factors 1+-g*2^-20 (g full-mantissa constants); cases with a singleton phase within 1e-9 of 0.5 are discarded for such factors",
     "numpy/tskit/msprime trusted",
 ]
 TOL = 1e-6
@@ -82,12 +83,12 @@ def check(case, ctx):
     if verdict == "discard":
         ctx.discard(info)
         return []
+    if ts.num_trees >= 2 and ts.num_mutations >= 3:
+        ctx.mark_nontrivial()  # also for violations: the runner's too-few-cases test precedes its verdict
     if verdict == "violation":
         key, msg = info
         return [Violation(f"coordinates:{method}:{key}", f"{method}, c={c!r} ({'2^k' if pow2 else 'real'}): {msg}",
                           cfg=E.describe_cfg(cfg))]
-    if ts.num_trees >= 2 and ts.num_mutations >= 3:
-        ctx.mark_nontrivial()
     if not pow2:
         r = info
         ctx.label("relerr:" + ("vg" if method == "variational_gamma" else "discrete") + ":" +
@@ -101,6 +102,11 @@ def finish(ctx, tier):
     for k in list(ctx.extra):
         if k.startswith("max_relerr_") and isinstance(ctx.extra[k], list):
             ctx.extra[k] = float(max(ctx.extra[k]))
+    # DESIGN §4: tie discards must stay rare, otherwise the generator sits on discontinuities and
+    # the run is inconclusive (harness error), not a pass
+    ties = sum(v for k, v in ctx.discards.items() if k.startswith("numerical tie"))
+    if ctx.evaluations >= 200 and ties > 0.02 * ctx.evaluations and not ctx.buckets:  # never mask a violation
+        ctx.harness_errors.append(f"{ties} numerical-tie discards in {ctx.evaluations} cases (> 2 %)")
 
 
 def describe(case):
